@@ -471,10 +471,10 @@ func nodeGen(r *rand.Rand, tier string, prop string) []Case {
 	for i := 0; i < n; i++ {
 		c := Case{fmt.Sprintf("world # seed=%d", r.Intn(1_000_000))}
 		c = append(c, "blk # dt=6 txs=deploy.0|eth.1.5")
-		c = append(c, "blk # dt=6 txs=fundpup.0.1000000000000000|approve.1|approve.2|mdeleg.3.1000000000000000000|mdeleg.1.1000000000000000000|mdeleg.2.1000000000000000000")
+		c = append(c, "blk # dt=6 txs=fundpup.0.1000000000000000|approve.1|approve.2|mdeleg.3.100000000000000000|mdeleg.1.100000000000000000|mdeleg.2.100000000000000000")
 		c = append(c, "blk # dt=6 txs=vest.4.5.6000000000000000000000")
 		var liqTo []int
-		swapAt := 2 + r.Intn(blocks-4)
+		swapAt := 2 + r.Intn(blocks-6)
 		swapped := "bech32" // the extension that is inactive
 		for b := 2; b < blocks; b++ {
 			var txs []string
@@ -609,6 +609,8 @@ type nodeRun struct {
 	results  []nodeBlockResult
 	restarts []nodeRestart
 	pendVote []uint64
+	// the active EVM extensions after the last block (to notice that the governance change really executed)
+	lastActive string
 }
 
 type nodeRestart struct {
@@ -695,6 +697,12 @@ func nodeExecHistory(c Case, afterBlock func(*nodeRun, int), atMark func(*nodeRu
 				}
 			}
 			res.end, res.appHash = w.end(a, b)
+			if ap := strings.Join(a.EvmKeeper.GetParams(a.BaseApp.NewContext(true, testutil.NewHeader(b.height, b.time, nodeChainID, w.proposer, nil, nil))).ActivePrecompiles, ","); ap != run.lastActive {
+				if run.lastActive != "" {
+					tags = append(tags, "evm-params-changed")
+				}
+				run.lastActive = ap
+			}
 			run.blocks = append(run.blocks, b)
 			run.results = append(run.results, res)
 			outs = append(outs, fmt.Sprintf("h=%d codes=%s", h, strings.Join(codes, ",")))
@@ -1008,9 +1016,11 @@ func init() {
 	})
 	Register(&Property{
 		ID: "C20", NoModel: true,
-		Gen:        func(r *rand.Rand, tier string) []Case { return nodeGen(r, tier, "C20") },
-		Exec:       c20Exec,
-		NonTrivial: func(tags []string) bool { return hasTag(tags, "restart-compared") },
-		Rule:       "the same block histories; at marked block boundaries (random ones and the ones right after the governance proposal that changes the EVM parameters executes) the database is copied and a fresh application is constructed over the copy: start-up height and app hash are compared with the never-stopped node, then all remaining blocks are fed to both and every result and app hash compared; non-trivial = at least one restart compared; distinct = distinct histories",
+		Gen:  func(r *rand.Rand, tier string) []Case { return nodeGen(r, tier, "C20") },
+		Exec: c20Exec,
+		NonTrivial: func(tags []string) bool {
+			return hasTag(tags, "restart-compared") && hasTag(tags, "evm-params-changed")
+		},
+		Rule: "the same block histories; at marked block boundaries (random ones and the ones right after the governance proposal that changes the EVM parameters executes) the database is copied and a fresh application is constructed over the copy: start-up height and app hash are compared with the never-stopped node, then all remaining blocks are fed to both and every result and app hash compared; non-trivial = at least one restart compared; distinct = distinct histories",
 	})
 }
